@@ -569,7 +569,8 @@ pub struct Tier {
 
 pub fn tier(name: &str) -> Tier {
     match name {
-        "thorough" => Tier { shards: 256, scenarios_per_shard: 220, schedules: 12, max_sub: 6, stl_every: 6 },
+        "thorough" => Tier { shards: 256, scenarios_per_shard: 120, schedules: 8, max_sub: 6, stl_every: 60 },
+        "stl" => Tier { shards: 16, scenarios_per_shard: 2, schedules: 2, max_sub: 3, stl_every: 1 },
         "smoke" => Tier { shards: 4, scenarios_per_shard: 10, schedules: 3, max_sub: 3, stl_every: 0 },
         _ => Tier { shards: 32, scenarios_per_shard: 60, schedules: 4, max_sub: 4, stl_every: 0 },
     }
@@ -634,6 +635,15 @@ pub fn gen_case(seed: u64, shard: u64, run: u64, t: &Tier) -> (Case, Vec<Relatio
     } else {
         None
     };
+    let is_stl = cell.links.iter().any(|m| m.stl.is_some());
+    let (mut qs, mut cfgs, mut reconfigure, mut sibling_base) = (qs, cfgs, reconfigure, sibling_base);
+    if is_stl {
+        // the bundled meshes have thousands of triangles: keep these scenarios small
+        qs.truncate(2);
+        cfgs.truncate(3);
+        reconfigure = None;
+        sibling_base = None;
+    }
     (Case { cell, near, qs, cfgs, clients, reconfigure, sibling_base }, rels)
 }
 
